@@ -568,3 +568,25 @@ Definition c08_unwound (fixed : bool) (w : workload) (l : list (path * content))
   code [w_class_at fixed w (fs_of l) req =? impl_class; negb (impl_class =? 1);
         negb chk || prefix_state_b (w_s0l w) (w_ops fixed w) l].
 
+(* ------------------------------------------------------------------ mixed forms (catalog creation) *)
+(* The two repairs of the creation are independent: how the id list reaches patch_ids.bin (w_ops: in place | aside + rename)
+   and whether an empty id list is refused (recover_cat).  fo selects the operation list, fr the recovery; a working tree
+   with only one of the repairs is compared with (fo, fr) = (false, true).  w_class2 b b = w_class b. *)
+Definition create_like (w : workload) : bool :=
+  match w with WCreate _ | WOverwrite _ _ _ | WCreateB _ | WOverwriteB _ _ _ => true | _ => false end.
+Definition w_class2 (fo fr : bool) (w : workload) (k req : nat) : nat :=
+  if create_like w then
+    let s0 := w_s0 w in
+    let ops := w_ops fo w in
+    classify obs_beq (recover_cat fr (apply (firstn k ops) s0)) (recover_cat fr s0) (recover_cat fr (apply ops s0))
+  else w_class fr w k req.
+Definition c08_case2 (fo fr : bool) (w : workload) (k req impl_class : nat) : nat :=
+  code [w_class2 fo fr w k req =? impl_class; negb (impl_class =? 1)].
+Definition w_class_at2 (fo fr : bool) (w : workload) (s : fs) (req : nat) : nat :=
+  if create_like w then
+    let s0 := w_s0 w in
+    classify obs_beq (recover_cat fr s) (recover_cat fr s0) (recover_cat fr (apply (w_ops fo w) s0))
+  else w_class_at fr w s req.
+Definition c08_unwound2 (fo fr : bool) (w : workload) (l : list (path * content)) (req impl_class : nat) (chk : bool) : nat :=
+  code [w_class_at2 fo fr w (fs_of l) req =? impl_class; negb (impl_class =? 1);
+        negb chk || prefix_state_b (w_s0l w) (w_ops fo w) l].
